@@ -615,6 +615,16 @@ def usage_items():
             "impl ::core::ops::MulAssign<::rt::Scalar> for @N@_Only { fn mul_assign(&mut self, _r: ::rt::Scalar) {} }\n"
             "#[allow(non_camel_case_types, non_snake_case)] @DERIVE@ pub struct @N@<T> { pub a: T }\n"
             "#[allow(non_camel_case_types, non_snake_case, dead_code)] pub fn @N@_use(a: &mut @N@<@N@_Only>, k: ::rt::Scalar) { *a *= k; }", "scalar-mul-assign-only-scalar-impl")
+    # a single-field struct multiplied by a scalar that is not `Copy` (mul.md: only several fields need `Copy`)
+    yield u(["Mul", "Rem"], "#[allow(non_camel_case_types, non_snake_case, dead_code)] pub struct @N@_Rhs(pub ::std::string::String);\n#[allow(non_camel_case_types, non_snake_case, dead_code)] pub struct @N@_F(pub u8);\n"
+            "impl ::core::ops::Mul<@N@_Rhs> for @N@_F { type Output = @N@_F; fn mul(self, _r: @N@_Rhs) -> @N@_F { self } }\n"
+            "impl ::core::ops::Rem<@N@_Rhs> for @N@_F { type Output = @N@_F; fn rem(self, _r: @N@_Rhs) -> @N@_F { self } }\n"
+            "#[allow(non_camel_case_types, non_snake_case)] @DERIVE@ pub struct @N@(pub @N@_F);\n"
+            "#[allow(non_camel_case_types, non_snake_case, dead_code)] pub fn @N@_use(a: @N@, k: @N@_Rhs, m: @N@_Rhs) -> @N@ { (a * k) % m }", "scalar-mul-non-copy-rhs")
+    yield u(["MulAssign"], "#[allow(non_camel_case_types, non_snake_case, dead_code)] pub struct @N@_Rhs(pub ::std::string::String);\n#[allow(non_camel_case_types, non_snake_case, dead_code)] pub struct @N@_F(pub u8);\n"
+            "impl ::core::ops::MulAssign<@N@_Rhs> for @N@_F { fn mul_assign(&mut self, _r: @N@_Rhs) {} }\n"
+            "#[allow(non_camel_case_types, non_snake_case)] @DERIVE@ pub struct @N@ { pub r#type: @N@_F }\n"
+            "#[allow(non_camel_case_types, non_snake_case, dead_code)] pub fn @N@_use(a: &mut @N@, k: @N@_Rhs) { *a *= k; }", "scalar-mul-assign-non-copy-rhs")
     yield u(["Error", "Display", "Debug"], "#[allow(non_camel_case_types, non_snake_case, dead_code)] pub struct @N@_Opaque;\n"
             "#[allow(non_camel_case_types, non_snake_case)] @DERIVE@ #[display(\"request {id} failed\")] pub struct @N@<Ctx> { id: u32, #[debug(skip)] context: Ctx }\n"
             "#[allow(non_camel_case_types, non_snake_case, dead_code)] pub fn @N@_use() { fn is_error<E: ::std::error::Error>() {} is_error::<@N@<@N@_Opaque>>(); }", "error-param-without-fmt")
